@@ -63,7 +63,7 @@ pub const DEFAULT_HTTP_FAIL_WAIT_SEC: u64 = 1;
 pub const DEFAULT_HTTP_FAIL_WAIT_SEC: u64 = 0;
 pub const DEFAULT_HOOK_ALLOW_FAILURE: bool = false;
 pub const MAX_HOOK_GROUP_DEPTH: usize = 32;
-pub const MAX_HOOKS_PER_GROUP: usize = 4096;
+pub const MAX_HOOK_GROUP_MEMBERS: usize = 4096;
 pub const MAX_INCLUDE_DEPTH: usize = 32;
 #[cfg(not(feature = "breard_r_acmed_verif"))]
 pub const DEFAULT_RENEW_FAIL_WAIT_SEC: u64 = 60;
